@@ -280,13 +280,17 @@ fn compile_tx_input(utxo_ref: &UtxoRef) -> Result<primitives::TransactionInput, 
 }
 
 fn compile_inputs(tx: &tir::Tx) -> Result<Vec<primitives::TransactionInput>, Error> {
-    let refs = tx
+    let mut refs = tx
         .inputs
         .iter()
         .flat_map(|x| coercion::expr_into_utxo_refs(&x.utxos))
         .flatten()
         .map(|x| compile_tx_input(&x))
         .collect::<Result<Vec<_>, _>>()?;
+
+    // the utxos of an input come from a hash set, sort them (as the ledger does)
+    // so that the same tx always compiles into the same bytes
+    refs.sort_by_key(|x| (x.transaction_id, x.index));
 
     Ok(refs)
 }
